@@ -363,9 +363,16 @@ def gen_case(seed, index, profile=None):
     origin_lines = []
     flags = []
     if ctx.chance("origins", 0.0):
+        if rng.random() < 0.3:
+            ctx.balances[("world", ASSETS[0])] = rng.choice([500, -7, 0, BIG])
         for _ in range(rng.randrange(1, 3)):
             a = rng.choice(ACCOUNTS)
             c = ASSETS[0]
+            if rng.random() < 0.12:
+                # the balance of @world is never requested: it reads as zero whatever the store holds
+                ctx.declare("monetary", ('monetary', c, 0), None, origin="balance(@world, %s)" % c)
+                ctx.features.add("origin-balance-world")
+                continue
             which = rng.random()
             if which < 0.6:
                 ctx.declare("monetary", ('monetary', c, ctx.balances.get((a, c), 0)), None,
@@ -407,7 +414,7 @@ def gen_case(seed, index, profile=None):
     for (t, name, origin) in ctx.decls:
         if origin and origin.startswith("balance("):
             a = origin[len("balance(@"):].split(",")[0]
-            b = ctx.balances.get((a, ASSETS[0]), 0)
+            b = 0 if a == "world" else ctx.balances.get((a, ASSETS[0]), 0)
             if b < 0:
                 var_error = ("NegativeBalanceError", [a, str(b)])
                 break
